@@ -79,7 +79,7 @@ Proof.
   intros W. unfold ad_set_min_h, with_len.
   destruct (len (q_data q) =? 5) eqn:E; cbn [negb]; [|bn W].
   destruct (q_data q) as [|? d]; [discriminate E|]. shape_of E d.
-  destruct ((32767 <? w16 n1 n2) || (32767 <? w16 n n0) || (1 <? n3)); [unfold nackd; bn W|ba W].
+  match goal with |- context [if ?c then _ else _] => destruct c end; [unfold nackd; bn W|ba W].
 Qed.
 Lemma ad_set_lock_both q st : wf_cc q -> hboth q st (ad_set_lock_h q st).
 Proof.
